@@ -131,7 +131,7 @@ def model_check(workdir):
     stage_spec(workdir)
     res = {}
     for cfg, expect_ok in (("Replicas_fixed.cfg", True), ("Replicas_hazard.cfg", False)):
-        rc, out, wall = tlc(workdir, "MCReplicas.tla", cfg, workers=8, timeout=900)
+        rc, out, wall = tlc(workdir, "MCReplicas.tla", cfg, workers=8, timeout=900, heap="6g")
         m = TLC_STATS.search(out)
         ok = "No error has been found" in out
         violated = "Invariant Agreement is violated" in out
